@@ -43,11 +43,12 @@ Print Assumptions declare_var_through_block_rejected.
 (* resolution_correct, for the fragment [core_x] = {Block; Func (function declarations and expressions, with or
    without expression name) and parenthesised Arrow whose parameter list consists of plain parameters and of
    default-value expressions (references, and functions / arrows / classes of the same kind, nested to any
-   depth) such that no default value mentions a later parameter of its list or a name declared in the
-   function body, and whose expression name is not also a parameter or a declaration of the body (the shapes
-   refuted below); For loops (loop head with let / const / var declarations and arbitrary initialisers, one Scope
+   depth) such that no default value mentions a later parameter of its list, and whose expression name is not
+   also a parameter or a declaration of the body (the shapes refuted below) - a default value MAY mention a name
+   that the function body declares (it is frozen by MarkFuncArgs and resolved outside the function; since /repo
+   6a9c7af the body's declaration no longer adopts it); For loops (loop head with let / const / var declarations and arbitrary initialisers, one Scope
    with MarkForStmt) whose head mentions no name that the body declares lexically; Catch with plain parameters
-   that the catch block does not redeclare by var/function; Class bodies without a class-expression name
+   (and the mark after the parameter, /repo 8db4a8d) that the catch block does not redeclare by var/function; Class bodies without a class-expression name
    (methods, field values, computed keys, static blocks = function scopes without parameters); Decl var / function / let-const-class /
    parameter / catch parameter; Ref}: arbitrary nesting, shadowing at every level, use before declaration,
    hoisting of var/function through nested and sibling blocks, loops and catch clauses, closures that use names
@@ -62,11 +63,17 @@ Print Assumptions declare_var_through_block_rejected.
          Undeclared list, under its own name;
      (3) an occurrence that is bound is a declared variable (Decl <> NoDecl) of that name;
      (4) Uses of the Var of an occurrence is the number of occurrences that share it.
-   NOT covered by this theorem (hence _partial): the shapes excluded by the side conditions above (on which
-   /repo deviates from ECMAScript, see the _refuted theorems), destructuring defaults in catch heads, var
-   redeclaring a catch parameter, class-expression names, x => ... and the arrow cover grammar
-   (UndeclareScope); these are checked by the correspondence runs and the oracle only
-   (KNOWN_FINDINGS.txt, keys c04-es:... and c04-reject:...).
+   NOT covered by this theorem (hence _partial):
+     - shapes on which /repo deviates from ECMAScript (the _refuted theorems): a default value that mentions a
+       later parameter, an expression name redeclared inside the function, a loop body that declares lexically a
+       name the loop head DECLARES, var redeclaring a catch parameter;
+     - shapes on which model and ECMAScript agree on all sampled programs but which the proof does not reach:
+       a loop head that merely MENTIONS a name the body declares lexically (agreeing since /repo 6a9c7af),
+       destructuring defaults in catch heads (since 8db4a8d) and class-expression names (since faa3812; the label
+       machine of the proof has no step for the merge of the pending uses into the name), x => ... and the arrow
+       cover grammar (UndeclareScope).
+   These are checked by the correspondence runs and the oracle only (KNOWN_FINDINGS.txt, keys c04-es:... and
+   c04-reject:...); resolution_repaired_witnesses holds the former counterexamples.
    Example (hypotheses satisfiable, non-trivial partition): Main.example_hyps, Main.example_partition,
    Main.example_d_hyps, Main.example_d_partition (default values), Main.example_c_hyps,
    Main.example_c_partition (classes), Main.example_x_hyps, Main.example_x_partition (loops, expression names). *)
@@ -137,24 +144,30 @@ Print Assumptions rename_alpha_spec.
    c04-es:..., witnesses also in corpus/C04.txt where model and implementation agree).  [deviates p]: p has
    no redeclaration error, the model resolves it, and its partition by Var differs from the declarative one. *)
 
-(* "parameters and their default-value expressions": a default value that mentions a later parameter, and a
-   body reference that precedes the body's own declaration of a name a default value mentions *)
-Theorem resolution_param_defaults_refuted : deviates w_fwd_param /\ deviates w_default_capture.
-Proof. exact (conj w_fwd_param_deviates w_default_capture_deviates). Qed.
+(* "parameters and their default-value expressions": a default value that mentions a later parameter *)
+Theorem resolution_param_defaults_refuted : deviates w_fwd_param.
+Proof. exact w_fwd_param_deviates. Qed.
 Print Assumptions resolution_param_defaults_refuted.
 
-(* "function- and class-expression names" *)
-Theorem resolution_expression_names_refuted : deviates w_funcexpr_name /\ deviates w_classexpr_name.
-Proof. exact (conj w_funcexpr_name_deviates w_classexpr_name_deviates). Qed.
+(* "function- and class-expression names": a function-expression name redeclared inside the function *)
+Theorem resolution_expression_names_refuted : deviates w_funcexpr_name.
+Proof. exact w_funcexpr_name_deviates. Qed.
 Print Assumptions resolution_expression_names_refuted.
 
-(* "loop heads": head and body share one Scope *)
+(* "loop heads": head and body share one Scope; a body that declares lexically a name the head DECLARES *)
 Theorem resolution_loop_heads_refuted : deviates w_loop_head.
 Proof. exact w_loop_head_deviates. Qed.
 Print Assumptions resolution_loop_heads_refuted.
 
-(* "catch-parameter block scoping": var redeclaring the parameter in a nested block; a default value of the
-   parameter pattern that mentions a name the block declares *)
-Theorem resolution_catch_refuted : deviates w_catch_var /\ deviates w_catch_head.
-Proof. exact (conj w_catch_var_deviates w_catch_head_deviates). Qed.
+(* "catch-parameter block scoping": var redeclaring the parameter in a nested block *)
+Theorem resolution_catch_refuted : deviates w_catch_var.
+Proof. exact w_catch_var_deviates. Qed.
 Print Assumptions resolution_catch_refuted.
+
+(* the counterexamples of three repaired deviations (/repo 6a9c7af, 8db4a8d, faa3812) now resolve as ECMAScript
+   says: "var b; function f(a=b){b; var b}" (inside the fragment of resolution_correct_partial),
+   "var a; try{}catch([b=a]){let a}" and "(class a{m(){a}})" (outside it).  [agrees p]: no redeclaration error,
+   the model resolves p, and its partition by Var is the declarative one. *)
+Theorem resolution_repaired_witnesses : agrees w_default_capture /\ agrees w_catch_head /\ agrees w_classexpr_name.
+Proof. exact (conj w_default_capture_agrees (conj w_catch_head_agrees w_classexpr_name_agrees)). Qed.
+Print Assumptions resolution_repaired_witnesses.
